@@ -63,11 +63,11 @@ Theorem C09_lexer_asserts_hold : forall i acts, fits32 i -> fits16 i -> split_fr
 Proof. exact lexer_asserts_hold. Qed.
 
 (** non-vacuity: a 1024 x 1024 array of f64 under an 8 MiB limit is accepted with its true size, one
-    more column is refused; depth-2 recursion under limit 5 succeeds with the call stack at 5 *)
+    more column is refused; depth-2 recursion under limit 5 succeeds with the call stack at limit + 1 + 1 = 7 *)
 Example C09_nonvacuous :
   validate_size 8 [1024; 1024]%N 8388608 = Accept 1048576 /\
   validate_size 8 [1024; 1025]%N 8388608 = Reject /\
-  cexec 5 rec_direct 40 rec_main 1 (rec_oracle 2) = (COk, 6, []) /\
+  cexec 5 rec_direct 40 rec_main 1 (rec_oracle 2) = (COk, 7, []) /\
   fst (fst (cexec 5 rec_direct 40 rec_main 1 (rec_oracle 3))) = CErr /\
   arr_verdict 26 = true /\ arr_verdict 27 = false.
 Proof. vm_compute. repeat split. Qed.
